@@ -99,6 +99,7 @@ pub fn exec_c04(plan: &C04Plan, st: &mut Stats) -> Option<Violation> {
     // the decoder answers any difference with "unimplemented".  From then on a
     // rejection of a valid picture is not judged (acceptance still is).
     let mut tainted = false;
+    let mut deferred: Vec<Clause3> = Vec::new();
     for (si, step) in plan.steps.iter().enumerate() {
         st.add("steps", 1);
         let before = snap_last(&slot.state);
@@ -163,20 +164,12 @@ pub fn exec_c04(plan: &C04Plan, st: &mut Stats) -> Option<Violation> {
                             continue; // clause 4: rejection is what the statement asks for
                         }
                         if s.ptype == PType::Disposable {
-                            // clause 3: "decoded like a predicted picture"
+                            // clause 3: "decoded like a predicted picture" (evaluated after the
+                            // history, on another thread, so that the second decoder instance it
+                            // needs cannot perturb the decoder under test: that would be C17's business)
                             let mut ps = s.clone();
                             ps.ptype = PType::P;
-                            let (pb, _) = encode(&ps);
-                            if let Some(mut r) = replay_decoder(plan.opts, &accepted_bytes) {
-                                r.new_reader();
-                                r.feed(&pb);
-                                if r.decode().is_ok() {
-                                    return viol(
-                                        "disposable picture rejected although the same picture marked as predicted is accepted",
-                                        format!("step {si} ({}): {}; the same bytes with the type field set to P decode in the same state", p.note, o.short()),
-                                    );
-                                }
-                            }
+                            deferred.push(Clause3 { step: si, note: p.note.clone(), accepted: accepted_bytes.len(), p_variant: encode(&ps).0, disposable_result: None, err: o.short() });
                         }
                         // Whether a valid picture is accepted at all is C02/C03's business, not
                         // C04's (which speaks about what happens to accepted and rejected pictures).
@@ -222,7 +215,14 @@ pub fn exec_c04(plan: &C04Plan, st: &mut Stats) -> Option<Violation> {
                                         st.distinct.insert(fnv1a(&p.bytes) ^ (i as u64) << 48 ^ fnv1a(m_ref_name.as_bytes()));
                                     }
                                     if !mb_equal(&now, r, mx, my) {
-                                        let culprit = gallery.iter().rev().find(|(_, g)| same_shape(g, &now) && mb_equal(&now, g, mx, my)).map(|(n, _)| n.clone()).unwrap_or_else(|| "none of the decoded pictures".into());
+                                        // C04 is about WHICH picture is used.  The alarm is raised only if
+                                        // the macroblock is positively a copy of another decoded picture; a
+                                        // macroblock that equals none of them is a reconstruction defect
+                                        // (C03's statement about not-coded macroblocks), not judged here.
+                                        let Some(culprit) = gallery.iter().rev().find(|(_, g)| same_shape(g, &now) && mb_equal(&now, g, mx, my)).map(|(n, _)| n.clone()) else {
+                                            st.inc("copy_mismatch_unattributed_not_judged");
+                                            continue;
+                                        };
                                         return viol(
                                             "predicted from a picture that is not the last non-disposable one",
                                             format!("step {si} ({}): not-coded macroblock ({mx},{my}) is not a copy of the reference [{m_ref_name}]; it equals [{culprit}]", p.note),
@@ -234,21 +234,10 @@ pub fn exec_c04(plan: &C04Plan, st: &mut Stats) -> Option<Violation> {
                     }
                     if s.ptype == PType::Disposable {
                         st.inc("probe.disposable_accepted");
-                        // clause 3: identical to the same picture marked P, decoded in the same state
+                        // clause 3, deferred (see above)
                         let mut ps = s.clone();
                         ps.ptype = PType::P;
-                        let (pb, _) = encode(&ps);
-                        if let Some(mut r) = replay_decoder(plan.opts, &accepted_bytes) {
-                            r.new_reader();
-                            r.feed(&pb);
-                            if r.decode().is_ok() {
-                                let Some(rs) = snap_last(&r.state) else { continue };
-                                if rs.y != now.y || rs.cb != now.cb || rs.cr != now.cr {
-                                    return viol("disposable picture not decoded like a predicted picture", format!("step {si} ({}): planes differ from the same picture marked P", p.note));
-                                }
-                                st.inc("probe.disposable_equals_p_variant");
-                            }
-                        }
+                        deferred.push(Clause3 { step: si, note: p.note.clone(), accepted: accepted_bytes.len(), p_variant: encode(&ps).0, disposable_result: Some((now.y.clone(), now.cb.clone(), now.cr.clone())), err: String::new() });
                     }
                 } else {
                     st.inc("corrupted_or_faulted_picture_accepted");
@@ -273,7 +262,66 @@ pub fn exec_c04(plan: &C04Plan, st: &mut Stats) -> Option<Violation> {
             }
         }
     }
+    if deferred.is_empty() {
+        return None;
+    }
+    // clause 3 on a fresh thread: fresh decoders fed the accepted history, then the
+    // same bytes marked P
+    let opts = plan.opts;
+    let acc = accepted_bytes.clone();
+    let res = std::thread::spawn(move || {
+        let mut out: Vec<(usize, String, Option<bool>)> = Vec::new(); // (step, note, Some(planes equal) / None = P variant not accepted)
+        for d in &deferred {
+            let verdict = match replay_decoder(opts, &acc[..d.accepted]) {
+                None => None,
+                Some(mut r) => {
+                    r.new_reader();
+                    r.feed(&d.p_variant);
+                    if r.decode().is_ok() {
+                        match (&d.disposable_result, snap_last(&r.state)) {
+                            (Some((y, cb, cr)), Some(rs)) => Some(rs.y == *y && rs.cb == *cb && rs.cr == *cr),
+                            (None, _) => Some(false), // D was rejected but its P variant decodes
+                            _ => None,
+                        }
+                    } else {
+                        None
+                    }
+                }
+            };
+            out.push((d.step, if d.disposable_result.is_some() { d.note.clone() } else { format!("{}: {}", d.note, d.err) }, verdict));
+        }
+        (out, deferred)
+    })
+    .join();
+    let (out, deferred) = match res {
+        Ok(x) => x,
+        Err(_) => return None,
+    };
+    for ((step, note, verdict), d) in out.iter().zip(deferred.iter()) {
+        match (verdict, d.disposable_result.is_some()) {
+            (Some(true), true) => st.inc("probe.disposable_equals_p_variant"),
+            (Some(false), true) => return viol("disposable picture not decoded like a predicted picture", format!("step {step} ({note}): planes differ from the same picture marked P")),
+            (Some(_), false) => {
+                return viol(
+                    "disposable picture rejected although the same picture marked as predicted is accepted",
+                    format!("step {step} ({note}); the same bytes with the type field set to P decode in the same state"),
+                )
+            }
+            (None, _) => {}
+        }
+    }
     None
+}
+
+struct Clause3 {
+    step: usize,
+    note: String,
+    /// number of accepted pictures that precede it
+    accepted: usize,
+    p_variant: Vec<u8>,
+    /// planes of the accepted disposable picture, or None if it was rejected
+    disposable_result: Option<(Vec<u8>, Vec<u8>, Vec<u8>)>,
+    err: String,
 }
 
 // ---- generation -------------------------------------------------------------------------------
